@@ -732,6 +732,13 @@ func cmdCheck(args []string) int {
 					confirmed, how = true, "native assertion "+rr.Failed
 				case (p.tape.Label == "nontermination" || p.tape.Label == "deadlock") && rr.Timeout:
 					confirmed, how = true, "native watchdog timeout"
+				case rr.Mismatch == "" && !rr.Assume && strings.HasPrefix(rr.Failed, spec.Property+".") && !strings.Contains(rr.Failed, ".setup"):
+					// the native run of the engine's counterexample fails another assertion of the
+					// property (earlier or later than the one the engine stopped at): the real code
+					// violates the property on this input either way
+					confirmed, how = true, "native assertion "+rr.Failed+" (the engine stopped at "+p.tape.Label+")"
+				case rr.Mismatch == "" && !rr.Assume && rr.Panic != "" && !strings.Contains(p.tape.Label, ".setup"):
+					confirmed, how = true, "native panic: "+rr.Panic+" (the engine stopped at "+p.tape.Label+")"
 				case strings.HasSuffix(p.tape.Label, "nothing_running") && rr.Leftover != "" && rr.Failed == "":
 					// inside a synctest bubble leftover goroutines show as the bubble's deadlock panic
 					confirmed, how = true, "native: "+rr.Leftover
